@@ -43,6 +43,13 @@ func GroupByHelper(size int, underlying interface{}) (*groupBy, error) {
 	u := reflect.Indirect(reflect.ValueOf(underlying))
 	group := []reflect.Value{}
 
+	if u.Kind() == reflect.Array && !u.CanAddr() {
+		// an array passed by value must be copied before it can be sliced
+		a := reflect.New(u.Type()).Elem()
+		a.Set(u)
+		u = a
+	}
+
 	switch u.Kind() {
 	case reflect.Array, reflect.Slice:
 		if u.Len() == size {
